@@ -106,6 +106,7 @@ func (c gated) Write(id tla.Value, v tla.Value) resources.CRDTValue {
 	return gated{c.Inner.Write(id, v), c.Node}
 }
 func (c gated) Merge(other resources.CRDTValue) resources.CRDTValue {
+	noteMerge(c.Node, other)
 	gate.pass(fmt.Sprintf("m%d", c.Node))
 	return gated{c.Inner.Merge(unwrap(other)), c.Node}
 }
@@ -123,6 +124,38 @@ func (c *gated) GobDecode(b []byte) error {
 	}
 	c.Inner, c.Node = h.V, -1
 	return nil
+}
+
+// merge bookkeeping: how many received values the merger of each node has started to merge. The merger calls
+// value.Merge(v) and, during a section, oldValue.Merge(v) with the same v: the second call is not counted.
+var mergeLog struct {
+	mu    sync.Mutex
+	count map[int]int
+	last  map[int]resources.CRDTValue
+}
+
+func resetMergeLog() {
+	mergeLog.mu.Lock()
+	mergeLog.count, mergeLog.last = map[int]int{}, map[int]resources.CRDTValue{}
+	mergeLog.mu.Unlock()
+}
+
+func noteMerge(node int, other resources.CRDTValue) {
+	if node < 0 {
+		return
+	}
+	mergeLog.mu.Lock()
+	if l, ok := mergeLog.last[node]; !ok || l != other {
+		mergeLog.count[node]++
+		mergeLog.last[node] = other
+	}
+	mergeLog.mu.Unlock()
+}
+
+func mergesStarted(node int) int {
+	mergeLog.mu.Lock()
+	defer mergeLog.mu.Unlock()
+	return mergeLog.count[node]
 }
 
 func unwrap(v resources.CRDTValue) resources.CRDTValue {
@@ -300,6 +333,9 @@ type run struct {
 	cl    []*rpc.Client
 	lastT int64
 	t0    []int64
+	// number of values handed to each node's merge queue so far, as far as the driver knows (external
+	// ReceiveValue calls, payloads and replies of the rounds it triggered)
+	expect []int
 }
 
 func (r *run) takeSnaps() ([]snap, int) {
@@ -333,12 +369,26 @@ func sameSnaps(a, b []snap) bool {
 	return string(x) == string(y)
 }
 
-// settle waits for the condition "all merge queues empty and three consecutive equal snapshots"
+// settle waits until every merger has started to merge every value the driver knows was queued (a snapshot then
+// waits for the merger to release the state lock), every merge queue is empty and three consecutive snapshots
+// agree. If the code under test queues fewer values than expected (a seeded bug), the count condition is dropped
+// after 300 ms and the rest decides.
 func (r *run) settle() ([]snap, error) {
-	deadline := time.Now().Add(5 * time.Second)
+	begin := time.Now()
+	deadline := begin.Add(5 * time.Second)
 	var prev []snap
 	stableRuns := 0
 	for time.Now().Before(deadline) {
+		counted := true
+		for i := range r.nodes {
+			if r.nodes[i] != nil && mergesStarted(i) < r.expect[i] {
+				counted = false
+			}
+		}
+		if !counted && time.Since(begin) < 300*time.Millisecond {
+			time.Sleep(100 * time.Microsecond)
+			continue
+		}
 		cur, q := r.takeSnaps()
 		if q == 0 && prev != nil && sameSnaps(prev, cur) {
 			stableRuns++
@@ -514,7 +564,8 @@ func runCase(k kase) (res result) {
 			res.Err = fmt.Sprintf("panic: %v", x)
 		}
 	}()
-	r := &run{k: k}
+	r := &run{k: k, expect: make([]int, k.N)}
+	resetMergeLog()
 	// reserve all addresses while holding every listener open (closing one before binding the next
 	// may hand the same port out twice), then release them for NewCRDT
 	r.addrs = make([]string, k.N+1)
@@ -722,6 +773,19 @@ func runCase(k kase) (res result) {
 		case <-time.After(20 * time.Second):
 			res.Err = "hang: event " + kind
 			return
+		}
+		switch kind {
+		case "r", "gm":
+			r.expect[i]++
+		case "t", "gt":
+			if r.nodes[i] != nil && prevSnaps[i].Need > 0 {
+				for j := range r.nodes {
+					if j != i && r.nodes[j] != nil {
+						r.expect[j]++
+						r.expect[i]++
+					}
+				}
+			}
 		}
 		s, err := r.settle()
 		if err != nil {
